@@ -598,6 +598,16 @@ impl TopK {
         sort_exprs: &[PhysicalSortExpr],
         thresholds: &[ScalarValue],
     ) -> Result<Option<Arc<dyn PhysicalExpr>>> {
+        // The predicate below is evaluated with the comparison kernels, which order
+        // NULLs *inside* nested values (struct fields, list elements) in one fixed way
+        // instead of following the sort key's `nulls_first` / `descending` options like
+        // the TopK (row format / sort) order does. A predicate built from a nested
+        // threshold could reject rows that sort before it, so none is built (the
+        // previous, looser predicate stays in place).
+        if thresholds.iter().any(|v| v.data_type().is_nested()) {
+            return Ok(None);
+        }
+
         // Create filter expressions for each threshold
         let mut filters: Vec<Arc<dyn PhysicalExpr>> =
             Vec::with_capacity(thresholds.len());
